@@ -1,5 +1,6 @@
 import IpaVerif.Model.Util
 import IpaVerif.Model.Lifecycle
+import IpaVerif.Model.LifecycleApp
 /-! Line-protocol handlers for property C18 (model side + spec-side oracle). Import-free. -/
 namespace IpaVerif.Driver.C18
 open IpaVerif.Util IpaVerif.Lifecycle IpaVerif.Generated.Lifecycle
@@ -71,6 +72,133 @@ def showTr : TrOut → String
   | .invalidState f t => s!"InvalidState:{f.name}:{t.name}"
   | .panic => "panic"
 
+/-! ## App / request-handler level (suite `c18_app`)
+
+Request `c18.app <h> <s> <n> <item,item,…>`; an item is `<name>[!<mod>…][@<origin>][:<arg>…]`:
+
+* `nq:<pp>:<r…>` ReceiveQuery, `ph:<r…>` PrepareQuery, `ri` QueryInput, `qs:<r…>` QueryStatus,
+  `co:<r…>` CompleteQuery, `ki` KillQuery, `me` Metrics, `rec` Records — on the
+  `RequestHandler<HelperIdentity>` of the app; `ps` PrepareQuery, `ss:<k>` QueryStatus, `sco:<r…>`
+  CompleteQuery, `srec` `snq` `sri` `ski` `sme` (routes it does not serve) — on the
+  `RequestHandler<ShardIndex>`; `anq:<pp>:<r…>` `ari` `aqs:<r…>` `aco:<r…>` the `HelperApp` methods;
+  `to:<id>` / `te:<id>` task events. Replies are scripted as in `c18.hist`.
+* mods: `noid` (`Addr.query_id = None`), `p0`…`p5` (`Addr.params` that is not the JSON of the expected
+  type), `p6` (the proper JSON plus an unknown field); `@k` sets `Addr.origin`.
+
+Response per item: `<response class>/<passive status after>`. -/
+
+open IpaVerif.LifecycleApp
+
+structure Item where
+  name : String
+  mods : List String
+  origin : Option Nat
+  args : List String
+
+def parseItem (tok : String) : Option Item :=
+  match tok.splitOn ":" with
+  | [] => none
+  | head :: args =>
+    let (h', origin) := match head.splitOn "@" with
+      | [a, o] => (a, o.toNat?)
+      | _ => (head, none)
+    match h'.splitOn "!" with
+    | [] => none
+    | name :: mods => some { name, mods, origin, args }
+
+def Item.arg (it : Item) (i : Nat) : String := (it.args[i]?).getD ""
+
+/-- `Addr.params` for an op whose handler arm deserializes type `t`. -/
+def paramsOf (it : Item) (t : PType) (st : Status) : Params :=
+  if it.mods.any (fun m => m ∈ ["p0", "p1", "p2", "p3", "p4", "p5"]) then .other
+  else if it.mods.contains "p6" then .extra t st
+  else .proper t st
+
+def mkReq (it : Item) (side : Side) (route : Route) (params : Params) (env : Env) : Req :=
+  { side, route, hasId := !it.mods.contains "noid", origin := it.origin, params, env }
+
+def parseAppOp (tok : String) : Option AppOp := do
+  let it ← parseItem tok
+  let st0 : Status := .preparing
+  match it.name with
+  | "nq" => pure <| .request (mkReq it .mpc .receiveQuery (paramsOf it .queryConfig st0)
+      { peers := (← parseReplies (it.arg 0)), shards := (← parseReplies (it.arg 1)) })
+  | "ph" => pure <| .request (mkReq it .mpc .prepareQuery (paramsOf it .prepareQuery st0) { shards := (← parseReplies (it.arg 0)) })
+  | "ri" => pure <| .request (mkReq it .mpc .queryInput .other {})
+  | "qs" => pure <| .request (mkReq it .mpc .queryStatus .other { sshards := (← parseSReplies (it.arg 0)) })
+  | "co" => pure <| .request (mkReq it .mpc .completeQuery .other { shards := (← parseReplies (it.arg 0)) })
+  | "ki" => pure <| .request (mkReq it .mpc .killQuery .other {})
+  | "me" => pure <| .request (mkReq it .mpc .metrics .other {})
+  | "rec" => pure <| .request (mkReq it .mpc .records .other {})
+  | "ps" => pure <| .request (mkReq it .shard .prepareQuery (paramsOf it .prepareQuery st0) {})
+  | "ss" => do
+      let st ← allStatuses[(← (it.arg 0).toNat?)]?
+      pure <| .request (mkReq it .shard .queryStatus (paramsOf it .compareStatus st) {})
+  | "sco" => pure <| .request (mkReq it .shard .completeQuery .other { shards := (← parseReplies (it.arg 0)) })
+  | "srec" => pure <| .request (mkReq it .shard .records .other {})
+  | "snq" => pure <| .request (mkReq it .shard .receiveQuery (paramsOf it .queryConfig st0) {})
+  | "sri" => pure <| .request (mkReq it .shard .queryInput .other {})
+  | "ski" => pure <| .request (mkReq it .shard .killQuery .other {})
+  | "sme" => pure <| .request (mkReq it .shard .metrics .other {})
+  | "anq" => pure <| .method .startQuery { peers := (← parseReplies (it.arg 0)), shards := (← parseReplies (it.arg 1)) }
+  | "ari" => pure <| .method .executeQuery {}
+  | "aqs" => pure <| .method .queryStatus { sshards := (← parseSReplies (it.arg 0)) }
+  | "aco" => pure <| .method .completeQuery { shards := (← parseReplies (it.arg 0)) }
+  | "to" => pure <| .taskReturns (← (it.arg 0).toNat?) .ok
+  | "te" => pure <| .taskReturns (← (it.arg 0).toNat?) .err
+  | _ => none
+
+def apiName : Api → String
+  | .newQuery => "NewQuery"
+  | .queryInput => "QueryInput"
+  | .queryPrepare => "QueryPrepare"
+  | .queryCompletion => "QueryCompletion"
+  | .queryStatus => "QueryStatus"
+  | .queryKill => "QueryKill"
+
+def showHErr : HErr → String
+  | .badRequest => "BadRequest"
+  | .deserialization => "DeserializationFailure"
+  | .api a e => s!"{apiName a}:{showErr e}"
+
+/-- `rid`: identifier of the task whose result a `result` payload carries (the harness gives every
+stub task a payload that encodes its identifier). -/
+def showHResp (rid : Nat) : HResp → String
+  | .ok .empty => "ok:empty"
+  | .ok .prepared => "ok:prepared"
+  | .ok (.status s) => s!"ok:status:{s.name}"
+  | .ok .result => s!"ok:result:{rid}"
+  | .ok .killed => "ok:killed"
+  | .ok .metrics => "ok:metrics"
+  | .err e => s!"err:{showHErr e}"
+  | .pending id => s!"pending:{id}"
+  | .panic => "panic"
+
+/-- The task of the query in the table is the most recently started one. -/
+def showAResp (before : St) (op : AppOp) : AResp → String
+  | .resp h => showHResp (before.next - 1) h
+  | .stored => "stored"
+  | .dropped => "dropped"
+  | .resolved h =>
+    let id := match op with
+      | .taskReturns id _ => id
+      | _ => 0
+    s!"resolved:{showHResp id h}"
+
+def runAppShow (p : Pos) : St → List AppOp → List String
+  | _, [] => []
+  | s, op :: rest =>
+    let (s', r) := appStep p s op
+    s!"{showAResp s op r}/{showPassive s'}" :: runAppShow p s' rest
+
+def handleApp (toks : List String) : Option String :=
+  match toks with
+  | ["c18.app", h, s, _n, items] => some <| (do
+      let p : Pos := { helper := (← h.toNat?), leader := (← s.toNat?) == 0 }
+      let ops ← (items.splitOn ",").mapM parseAppOp
+      pure (String.intercalate "," (runAppShow p {} ops))).getD "bad-request"
+  | _ => none
+
 /-- `some response` if the request belongs to this property, else `none`. -/
 def handle (toks : List String) : Option String :=
   match toks with
@@ -85,6 +213,7 @@ def handle (toks : List String) : Option String :=
       let ops ← (ops.splitOn ",").mapM parseOp
       let out := run p {} ops
       pure (String.intercalate "," (out.map fun (r, st) => s!"{showResp r}/{showPassive st}"))).getD "bad-request"
+  | "c18.app" :: _ => handleApp toks
   | _ => none
 
 /-! ## Spec-side oracle
@@ -184,6 +313,149 @@ def checkHist (ops : List String) (resps : List String) : Option String :=
       | _ => some s!"{op}: malformed response {r}"
   go {} (ops.zip resps)
 
+/-! ### Spec-side oracle for `c18.app`
+
+From the API contract only: which routes a handler serves, which need `Addr.query_id`, which need
+`Addr.params` of a given type; the payload class each route answers with; and the lifecycle rules of
+`checkCall` above. It never consults `LifecycleApp.handle` / `Lifecycle.step`. -/
+
+structure AOSt where
+  o : OSt := {}
+  started : Nat := 0        -- successful QueryInput requests so far (= task ids handed to the harness)
+  handed : List Nat := []   -- ids of the results handed out so far
+
+/-- processor-level name of an app-level item (for `checkCall`) -/
+def histName : String → String
+  | "nq" | "anq" => "nq"
+  | "ph" => "ph"
+  | "ps" => "ps"
+  | "ri" | "ari" => "ri"
+  | "qs" | "aqs" => "qs"
+  | "ss" => "ss"
+  | "co" | "sco" | "aco" => "co"
+  | "ki" => "ki"
+  | "to" => "to"
+  | "te" => "te"
+  | _ => ""
+
+def unservedNames : List String := ["rec", "srec", "snq", "sri", "ski", "sme"]
+def needsIdNames : List String := ["ri", "qs", "co", "ki", "sco"]
+def paramNames : List String := ["nq", "ph", "ps", "ss"]
+
+/-- `some class` if the request must be refused whatever the state is. -/
+def malformedClass (it : Item) : Option String :=
+  if unservedNames.contains it.name then some "err:BadRequest"
+  else if needsIdNames.contains it.name && it.mods.contains "noid" then some "err:BadRequest"
+  else if paramNames.contains it.name && it.mods.any (fun m => m ∈ ["p0", "p1", "p2", "p3", "p4", "p5"]) then
+    some "err:DeserializationFailure"
+  else none
+
+/-- `ApiError` variant a processor error of this request must be wrapped in -/
+def errPrefix : String → String
+  | "nq" | "anq" => "err:NewQuery:"
+  | "ph" | "ps" => "err:QueryPrepare:"
+  | "ri" | "ari" => "err:QueryInput:"
+  | "qs" | "aqs" | "ss" => "err:QueryStatus:"
+  | "co" | "sco" | "aco" => "err:QueryCompletion:"
+  | "ki" => "err:QueryKill:"
+  | _ => "err:?"
+
+/-- payload class of a successful answer -/
+def okPrefix : String → String
+  | "nq" | "anq" => "ok:prepared"
+  | "ph" | "ps" | "ri" | "ari" => "ok:empty"
+  | "qs" | "aqs" | "ss" => "ok:status:"
+  | "co" | "sco" | "aco" => "ok:result:"
+  | "ki" => "ok:killed"
+  | "me" => "ok:metrics"
+  | _ => "ok:?"
+
+def afterPrefix (pre s : String) : String := String.intercalate pre ((s.splitOn pre).drop 1)
+
+/-- handler response class -> processor-level response of `c18.hist` -/
+def toHistRes (name res : String) : String :=
+  if res.startsWith "ok:status:" then s!"ok:{afterPrefix "ok:status:" res}"
+  else if res.startsWith "ok:" then "ok"
+  else if res.startsWith (errPrefix name) then s!"err:{afterPrefix (errPrefix name) res}"
+  else res
+
+/-- checks of one item; `none` = fine -/
+def checkApp (a : AOSt) (tok res after : String) : Option String :=
+  match parseItem tok with
+  | none => some s!"{tok}: unparsable item"
+  | some it =>
+  let before := a.o.before
+  let isTask := it.name == "to" || it.name == "te"
+  if res.startsWith "panic" || res.startsWith "timeout" then some s!"{tok}: the handler panicked or hung ({res})"
+  else if (res.splitOn "+stray").length > 1 || res == "unresolved" then some s!"{tok}: a completion finished/blocked out of turn ({res})"
+  else
+  -- every request gets a response of one of the two classes (or stays in flight: CompleteQuery only)
+  let inner := if isTask && res.startsWith "resolved:" then afterPrefix "resolved:" res else res
+  let cname := if isTask then "co" else it.name
+  if isTask && !(res == "stored" || res == "dropped" || res.startsWith "resolved:") then some s!"{tok}: bad task event answer {res}"
+  else if !isTask && res.startsWith "pending:" && histName it.name != "co" then some s!"{tok}: request left in flight ({res})"
+  else if (!isTask || res.startsWith "resolved:") && !(inner.startsWith "ok:" || inner.startsWith "err:" || (!isTask && inner.startsWith "pending:")) then
+    some s!"{tok}: response {res} is neither ok:<payload> nor err:<error>"
+  else
+  match malformedClass it with
+  | some cls =>
+    -- malformed: refused with the state-independent error, state untouched
+    if res != cls then some s!"{tok}: malformed request answered {res}, expected {cls}"
+    else if after != before then some s!"{tok}: malformed request changed the state {before} -> {after}"
+    else none
+  | none =>
+    if inner == "err:BadRequest" || inner == "err:DeserializationFailure" then some s!"{tok}: well-formed request refused with {res}"
+    else if it.name == "me" then
+      if res != "ok:metrics" then some s!"{tok}: Metrics answered {res}"
+      else if after != before then some s!"{tok}: Metrics changed the state {before} -> {after}" else none
+    else if inner.startsWith "ok:" && !inner.startsWith (okPrefix cname) then some s!"{tok}: success payload {inner} is not {okPrefix cname}…"
+    else if inner.startsWith "err:" && !inner.startsWith (errPrefix cname) then some s!"{tok}: error {inner} is not wrapped as {errPrefix cname}…"
+    else
+    -- results: of a started task, of the current query, at most once
+    let resultErr : Option String :=
+      if inner.startsWith "ok:result:" then
+        match (afterPrefix "ok:result:" inner).toNat? with
+        | none => some s!"{tok}: result payload is not a task's result ({inner})"
+        | some k =>
+          if k ≥ a.started then some s!"{tok}: result of task {k} which was never started"
+          else if a.handed.contains k then some s!"{tok}: result of task {k} handed out twice"
+          else if isTask && some k != (it.arg 0).toNat? then some s!"{tok}: completion resolved with the result of task {k}"
+          else if !isTask && k + 1 != a.started then some s!"{tok}: result of task {k} handed out for the query of task {a.started - 1}"
+          else none
+      else none
+    match resultErr with
+    | some why => some why
+    | none =>
+      let op' := String.intercalate ":" (histName it.name :: it.args)
+      let res' := if isTask && res.startsWith "resolved:" then s!"resolved:{toHistRes "co" inner}" else toHistRes it.name res
+      checkCall a.o op' res' after
+
+def advanceApp (a : AOSt) (tok res after : String) : AOSt :=
+  match parseItem tok with
+  | none => a
+  | some it =>
+    let inner := if res.startsWith "resolved:" then afterPrefix "resolved:" res else res
+    let started := if (it.name == "ri" || it.name == "ari") && res.startsWith "ok:" then a.started + 1 else a.started
+    let handed := if inner.startsWith "ok:result:" then
+        match (afterPrefix "ok:result:" inner).toNat? with
+        | some k => k :: a.handed
+        | none => a.handed
+      else a.handed
+    { o := advance a.o (toHistRes it.name res) after, started, handed }
+
+def checkAppHist (items : List String) (resps : List String) : Option String :=
+  if items.length != resps.length then some "number of responses differs from number of requests" else
+  let rec go (a : AOSt) : List (String × String) → Option String
+    | [] => none
+    | (tok, r) :: rest =>
+      match r.splitOn "/" with
+      | [res, after] =>
+        match checkApp a tok res after with
+        | some why => some why
+        | none => go (advanceApp a tok res after) rest
+      | _ => some s!"{tok}: malformed response {r}"
+  go {} (items.zip resps)
+
 def allowedTransition (a b : String) : Bool :=
   (a, b) ∈ [("Empty", "Preparing"), ("Empty", "AwaitingInputs"), ("Preparing", "AwaitingInputs"), ("AwaitingInputs", "Running")]
 
@@ -203,6 +475,12 @@ def oracle (toks : List String) (impl : String) : Option String :=
   | ["c18.hist", _, _, _, ops] => some <|
       if impl.startsWith "timeout" then "fails the history did not finish (hang)" else
       match checkHist (ops.splitOn ",") (impl.splitOn ",") with
+      | none => "holds"
+      | some why => s!"fails {why}"
+  | ["c18.app", _, _, _, items] => some <|
+      if impl.startsWith "timeout" then "fails the history did not finish (hang)" else
+      if impl.startsWith "panic" then s!"fails a request handler panicked ({impl})" else
+      match checkAppHist (items.splitOn ",") (impl.splitOn ",") with
       | none => "holds"
       | some why => s!"fails {why}"
   | _ => none
